@@ -731,6 +731,12 @@ func (s *c12StorageRun) shadowProbe() {
 		if M.Dead || D == nil || D.effSealed() || M.NS.effSealed() || M.Type != "verifrec" {
 			continue
 		}
+		if !M.shadowSealed {
+			// the namespace re-appeared after a restart (it had been unknown to the core
+			// when the mount was made): different root cause, not probed
+			s.r.Count("mounts_inside_path_of_a_namespace_that_was_unknown_to_the_core", 1)
+			continue
+		}
 		tok := s.all[D]
 		if tok == nil || tok.Dead {
 			continue
